@@ -65,8 +65,11 @@ reg(id="C04", props="Props/C04.v", proof_files=["Proofs/BeProofs.v", "Proofs/Tab
     rule=BE_RULE, trusted_base=BE_TB, assumptions=BE_ASSUME)
 reg(id="C07", props="Props/C07.v", proof_files=["Proofs/BeProofs.v", "Proofs/TableProofs.v", "Proofs/FeProofs.v"], families=[Be(), Fe()],
     rule=BE_RULE + " || " + FE_RULE, trusted_base=BE_TB + ["Spec/Gates.v: operation -> gating feature table"], assumptions=BE_ASSUME)
-reg(id="C09", props="Props/C09.v", proof_files=["Proofs/BeProofs.v"], families=[Be(), Fsrv()],
-    rule=BE_RULE + "; descriptors are distinct memfds identified by inode; leak = known inodes still open after dropping server, handler state and peer, plus growth of /proc/self/fd",
+reg(id="C09", props="Props/C09.v", proof_files=["Proofs/BeProofs.v"], families=[Be(), Fsrv(), Dmn()],
+    rule=BE_RULE + "; descriptors are distinct memfds identified by inode; leak = known inodes still open after dropping server, handler state and peer, plus growth of /proc/self/fd"
+    " || family dmn: every daemon history (ring, memory, log, adversarial, backend-request-channel, routing) ends with a teardown step: frontend, connection, daemon and all "
+    "harness-side descriptors dropped, then /proc/self/fd is counted against the count taken before the daemon was built; kick/call/err descriptors replaced while a ring "
+    "is started, memory and log descriptors replaced, channel descriptors replaced are part of those histories",
     trusted_base=BE_TB, assumptions=BE_ASSUME + ["the kernel disposes of SCM_RIGHTS descriptors that were never received when the socket is closed"])
 
 reg(id="C08", props="Props/C08.v", proof_files=["Proofs/TransportProofs.v", "Proofs/FramingProofs.v"],
@@ -81,8 +84,9 @@ reg(id="C08", props="Props/C08.v", proof_files=["Proofs/TransportProofs.v", "Pro
          "the byte the descriptors ride on is known; judged against the specification encoding. non-trivial = the whole run invoked a handler",
     trusted_base=BE_TB, assumptions=BE_ASSUME + ["sender side: sendmsg accepts a prefix of the offered bytes or fails with an errno (oracle); "
                                                    "SCM_RIGHTS of a partially accepted sendmsg travel with its first byte"])
-reg(id="C01", props="Props/C01.v", proof_files=["Proofs/WireProofs.v", "Proofs/CodecProofs.v"], families=[Fe(), Be()],
-    rule=FE_RULE + " || " + BE_RULE, trusted_base=FE_TB + BE_TB, assumptions=BE_ASSUME)
+reg(id="C01", props="Props/C01.v", proof_files=["Proofs/WireProofs.v", "Proofs/CodecProofs.v"], families=[Fe(), Be(), Tx()],
+    rule=FE_RULE + " || " + BE_RULE + " || family tx: every descriptor-carrying frontend request through a socket whose first sendmsg is refused (EAGAIN) or "
+    "accepts k bytes: the descriptors must ride on the first byte that reaches the wire", trusted_base=FE_TB + BE_TB, assumptions=BE_ASSUME)
 reg(id="C02", props="Props/C02.v", proof_files=["Proofs/FeProofs.v", "Proofs/BeProofs.v", "Proofs/TableProofs.v", "Proofs/CodecProofs.v", "Proofs/E2EProofs.v"], families=[Sess(), Fe(), Be()],
     rule=SESS_RULE + " || " + FE_RULE + " || " + BE_RULE, trusted_base=FE_TB + BE_TB, assumptions=BE_ASSUME)
 reg(id="C03", props="Props/C03.v", proof_files=["Proofs/FeProofs.v", "Proofs/BeProofs.v"], families=[Sess(), Fe(), Be()],
